@@ -102,6 +102,7 @@ func recoverFile(info types.SegmentInfo, wf types.WritableFile, bufPool *sync.Po
 func (w *Writer) initEmpty() error {
 	// Write header into write buffer to be written out with the first commit.
 	w.writer.writeOffset = 0
+	w.writer.indexStart = 0
 	w.ensureBufCap(fileHeaderLen)
 	w.writer.commitBuf = w.writer.commitBuf[:fileHeaderLen]
 
@@ -124,8 +125,14 @@ func (w *Writer) recoverTail() error {
 		offset     int64
 		crcStart   int64
 		offsetsLen int
+		indexStart uint64
 	}
 	var prevCommit, finalCommit *commitInfo
+
+	// indexStart of an index frame seen since the last commit frame. It only
+	// counts once the commit frame covering it is found (and turns out valid),
+	// otherwise it's part of a torn write and the segment is not sealed.
+	var pendingIndexStart uint64
 
 	offsets := make([]uint32, 0, 32*1024)
 
@@ -139,7 +146,7 @@ func (w *Writer) recoverTail() error {
 			// So this segment was sealed! (or attempted) keep track of this
 			// indexStart in case it turns out the Seal actually committed completely.
 			// We store the start of the actual array not the frame header.
-			w.writer.indexStart = uint64(offset) + frameHeaderLen
+			pendingIndexStart = uint64(offset) + frameHeaderLen
 
 		case FrameCommit:
 			// The payload is not the length field in this case!
@@ -149,7 +156,9 @@ func (w *Writer) recoverTail() error {
 				offset:     offset,
 				crcStart:   0,            // First commit includes the file header
 				offsetsLen: len(offsets), // Track how many entries were found up to this commit point.
+				indexStart: pendingIndexStart,
 			}
+			pendingIndexStart = 0
 			if prevCommit != nil {
 				finalCommit.crcStart = prevCommit.offset + frameHeaderLen
 			}
@@ -169,6 +178,7 @@ func (w *Writer) recoverTail() error {
 
 	// Assume that the final commit is good for now and set the writer state
 	w.writer.writeOffset = uint32(finalCommit.offset + frameHeaderLen)
+	w.writer.indexStart = finalCommit.indexStart
 
 	// Just store what we have for now to ensure the defer doesn't panic we'll
 	// probably update this below.
@@ -229,6 +239,7 @@ func (w *Writer) recoverTail() error {
 	}
 
 	w.writer.writeOffset = uint32(prevCommit.offset + frameHeaderLen)
+	w.writer.indexStart = prevCommit.indexStart
 	offsets = offsets[:prevCommit.offsetsLen]
 	w.offsets.Store(offsets)
 
